@@ -20,6 +20,9 @@ pub struct Environment {
     local: LocalBindings,
     /// Parent scope (if any)
     parent: Option<Rc<Environment>>,
+    /// Whether this scope holds the parameters of a function call (the scopes above it, apart
+    /// from the function's captured scope, belong to the caller)
+    call_frame: bool,
 }
 
 impl Environment {
@@ -28,6 +31,7 @@ impl Environment {
         Environment {
             local: LocalBindings::Owned(RefCell::new(HashMap::new())),
             parent: None,
+            call_frame: false,
         }
     }
 
@@ -36,6 +40,7 @@ impl Environment {
         Environment {
             local: LocalBindings::Owned(RefCell::new(bindings)),
             parent: None,
+            call_frame: false,
         }
     }
 
@@ -44,6 +49,7 @@ impl Environment {
         Environment {
             local: LocalBindings::Owned(RefCell::new(HashMap::new())),
             parent: Some(parent),
+            call_frame: false,
         }
     }
 
@@ -52,6 +58,17 @@ impl Environment {
         Environment {
             local: LocalBindings::Owned(RefCell::new(local)),
             parent: Some(parent),
+            call_frame: false,
+        }
+    }
+
+    /// Create the environment of a function call: its parameters (and self-reference) on
+    /// top of `parent`, which is the captured scope over the caller's environment
+    pub fn extend_call_frame(parent: Rc<Environment>, local: HashMap<String, Value>) -> Self {
+        Environment {
+            local: LocalBindings::Owned(RefCell::new(local)),
+            parent: Some(parent),
+            call_frame: true,
         }
     }
 
@@ -60,6 +77,7 @@ impl Environment {
         Environment {
             local: LocalBindings::Shared(local),
             parent: Some(parent),
+            call_frame: false,
         }
     }
 
@@ -109,6 +127,23 @@ impl Environment {
         false
     }
 
+    /// Check if a key is bound by the function being evaluated: in its block scopes, its
+    /// parameters or its captured scope - but not in the scopes of whoever called it.
+    /// Outside of any function call this is the same as `contains_key`.
+    pub fn contains_key_in_function(&self, key: &str) -> bool {
+        if self.contains_key_local(key) {
+            return true;
+        }
+        match &self.parent {
+            None => false,
+            Some(parent) if self.call_frame => {
+                // The captured scope, if there is one, sits directly above the parameters
+                matches!(parent.local, LocalBindings::Shared(_)) && parent.contains_key_local(key)
+            }
+            Some(parent) => parent.contains_key_in_function(key),
+        }
+    }
+
     /// Check if a key exists in the local scope only
     pub fn contains_key_local(&self, key: &str) -> bool {
         match &self.local {
@@ -131,6 +166,7 @@ impl Clone for Environment {
         Environment {
             local: LocalBindings::Owned(RefCell::new(self.flatten())),
             parent: None,
+            call_frame: false,
         }
     }
 }
